@@ -146,7 +146,7 @@ func sliceAlloc() *slice {
 // optim: every context in which an optimizer rewrite can fire.
 func sliceOptim() *slice {
 	rules := []*Rule{
-		Lit("1", TInt, 1), Lit("2", TInt, 2), Lit("0", TInt, 0), Lit("3", TInt, 3), Lit("7", TInt, 7), Var("I", TInt),
+		Lit("1", TInt, 1), Lit("2", TInt, 2), Lit("0", TInt, 0), Lit("3", TInt, 3), Lit("257", TInt, 257), Var("I", TInt),
 		Lit("1.5", TFloat, 1.5), Var("F", TFloat),
 		Lit(`"a"`, TStr, "a"), Lit(`"b"`, TStr, "b"), Var("S", TStr),
 		Lit("nil", TNil, nil), Var("X", TAny), Var("I8", TI8), Var("U8", TU8), Var("I64", TI64),
